@@ -7,6 +7,7 @@ use std::collections::{BTreeMap, HashSet};
 use std::hash::{Hash, Hasher};
 use std::io::Write;
 use std::path::PathBuf;
+use std::sync::{Mutex, OnceLock};
 use std::time::{Duration, Instant};
 
 #[derive(Clone, Copy, Debug, PartialEq, Eq, PartialOrd, Ord)]
@@ -395,6 +396,7 @@ impl Ctx {
             "machinery_errors": self.machinery_errors,
             "wall_s": self.start.elapsed().as_secs_f64(),
             "partial": !final_report,
+            "refusals": REFUSALS_SEEN.lock().unwrap_or_else(|e| e.into_inner()).iter().map(|((s, l), n)| json!([s, l, n])).collect::<Vec<_>>(),
         });
         let tmp = out.with_extension("tmp");
         std::fs::write(&tmp, serde_json::to_vec(&rep).unwrap()).expect("write report");
@@ -468,6 +470,59 @@ pub fn embeds(known: &Value, viol: &Value) -> bool {
 }
 
 // ------------------------------------------------------------------------------------------------
+
+
+// ---------------------------------------------------------------------------------------------------------------------
+// Refusal profile.  Several statements allow an operation to be REFUSED with an error ("put/remove returning Err leaves the
+// model unchanged").  Taken alone that tolerance would accept a library that refuses everything.  The refusals the unchanged
+// tree actually makes are therefore recorded once (`ZV_REFUSALS_RECORD=1`, tools/record_refusals.sh) as a set of
+// (subject, label) pairs — the label is chosen by the harness: the operation and as much of the model state as decides whether
+// refusing is legitimate — and committed as /verif/refusal_profile.json.  A check run tolerates exactly those; any other
+// refusal is the clause `unexpected_refusal`.  The exploration is exhaustive within its bounds and deterministic, so the
+// profile is complete for the explored space: a new pair can only come from a change of behaviour.
+
+static REFUSAL_PROFILE: OnceLock<Option<HashSet<(String, String)>>> = OnceLock::new();
+static REFUSALS_SEEN: Mutex<BTreeMap<(String, String), u64>> = Mutex::new(BTreeMap::new());
+
+fn refusal_profile() -> &'static Option<HashSet<(String, String)>> {
+    REFUSAL_PROFILE.get_or_init(|| {
+        if std::env::var_os("ZV_REFUSALS_RECORD").is_some() {
+            return None;
+        }
+        let path = std::env::var("ZV_REFUSALS").ok()?;
+        let text = std::fs::read_to_string(path).ok()?;
+        let v: Value = serde_json::from_str(&text).ok()?;
+        let prop = std::env::var("ZV_PROPERTY").unwrap_or_default();
+        let subjects = v.get(&prop)?.as_object()?;
+        let mut set = HashSet::new();
+        for (subj, labels) in subjects {
+            for l in labels.as_array()? {
+                set.insert((subj.clone(), l.as_str()?.to_string()));
+            }
+        }
+        Some(set)
+    })
+}
+
+/// Called by a harness at the point where it is about to tolerate a refusal (an `Err` the statement allows).
+/// Ok(()) = tolerated (it is in the recorded profile of the unchanged tree, or no profile exists for this property);
+/// Err = `unexpected_refusal`.
+pub fn tolerate_refusal(subject: &str, label: &str, detail: &str) -> Result<(), Fail> {
+    {
+        let mut seen = REFUSALS_SEEN.lock().unwrap_or_else(|e| e.into_inner());
+        *seen.entry((subject.to_string(), label.to_string())).or_insert(0) += 1;
+    }
+    match refusal_profile() {
+        None => Ok(()),
+        Some(set) => {
+            if set.contains(&(subject.to_string(), label.to_string())) {
+                Ok(())
+            } else {
+                Err(Fail::new("unexpected_refusal", format!("{label} was refused ({}); the unchanged library never refuses this operation in this state", truncate(detail, 160))).with_class(label.to_string()))
+            }
+        }
+    }
+}
 
 pub trait Subject {
     fn name(&self) -> String;
@@ -574,6 +629,8 @@ fn load_known(path: &PathBuf, property: &str) -> Vec<Known> {
 
 /// Entry point of every property binary.
 pub fn main_with(property: &str, build: impl FnOnce(&mut Registry, Tier)) {
+    // (read by the refusal profile)
+    unsafe { std::env::set_var("ZV_PROPERTY", property) };
     let args = parse_args(property);
     crate::util::install_quiet_panic_hook();
     crate::util::silence_stdout();
